@@ -194,5 +194,7 @@ def run(tier, seed):
     # the AVX2 copies of the point formulas (simd build): checks/c03v.py
     from checks import c03v
     tasks += c03v.harnesses(rep, build.ir("simd", "O0"))
+    try: tasks += c03v.harnesses(rep, build.ir("avx512", "O0"), backend="ifma")
+    except build.BuildError as e: rep.add(harness="avx512/build", config="avx512", function="build", status="inconclusive", why=str(e)[-400:], goals=[], wall_s=0)
     run_tasks(tasks, rep)
     return rep
